@@ -61,7 +61,7 @@ func (pc *parentController) syncRollingUpdate(parentRevisions []*parentRevision,
 			}
 			// This child is claimed by another revision, but if it already matches
 			// the desired state in the latest revision, we can move it immediately.
-			child := observedChildren.FindGroupKindName(gvk.GroupKind(), name)
+			child := findObservedChild(latest.parent, observedChildren, gvk.GroupKind(), name)
 			if child == nil {
 				// The child wasn't observed, so we don't know if it'll match latest.
 				continue
@@ -171,7 +171,7 @@ func (pc *parentController) shouldContinueRolling(latest *parentRevision, observ
 			groupKind := schema.GroupKind{
 				Group: ck.APIGroup,
 				Kind:  ck.Kind}
-			child := observedChildren.FindGroupKindName(groupKind, name)
+			child := findObservedChild(latest.parent, observedChildren, groupKind, name)
 			if child == nil {
 				// We didn't observe this child at all, so it's not happy.
 				return fmt.Errorf("missing child %v %v", ck.Kind, name)
@@ -211,6 +211,20 @@ func (pc *parentController) shouldContinueRolling(latest *parentRevision, observ
 				return fmt.Errorf("child %v %v failed status check: %w", ck.Kind, name, err)
 			}
 		}
+	}
+	return nil
+}
+
+// findObservedChild looks up an observed child by its name relative to the
+// parent, which is how ControllerRevisions and the hook's desired children name
+// it. Observed children are keyed namespace/name, so for a namespaced parent the
+// bare name has to be qualified with the parent's namespace first.
+func findObservedChild(parent *unstructured.Unstructured, observedChildren v2.UniformObjectMap, groupKind schema.GroupKind, name string) *unstructured.Unstructured {
+	if child := observedChildren.FindGroupKindName(groupKind, name); child != nil {
+		return child
+	}
+	if parent.GetNamespace() != "" {
+		return observedChildren.FindGroupKindName(groupKind, parent.GetNamespace()+"/"+name)
 	}
 	return nil
 }
